@@ -1,4 +1,5 @@
 import WK.Proofs.C14_Reads
+import WK.Gen.C14
 /-
   C14 — the durable Raft log behaves as a correct Raft storage.
 
@@ -209,5 +210,218 @@ theorem c14_valid_ops_succeed (ops : List Op) (op : Op) (hv : validRun {} (ops +
 
 example : validRun {} ([.save none none [⟨1, 1, .cc 0 1⟩], .save (some ⟨1, 0, 1⟩) none [], .mark 1] ++
     [.repl ⟨1, 1, ⟨[1], []⟩, [3]⟩]) = true := by decide
+
+theorem lookup_filter_keep (l : List (Nat × Bytes)) (p : Nat × Bytes → Bool) (k : Nat)
+    (hk : ∀ v, p (k, v) = true) : (l.filter p).lookup k = l.lookup k := by
+  induction l with
+  | nil => rfl
+  | cons x xs ih =>
+    obtain ⟨a, v⟩ := x
+    by_cases ha : k = a
+    · subst ha; simp [List.filter, hk, List.lookup]
+    · by_cases hp : p (a, v) = true
+      · simp only [List.filter, hp, List.lookup]
+        have : (k == a) = false := by simpa using ha
+        simp [this, ih]
+      · have hp' : p (a, v) = false := by simpa using hp
+        simp only [List.filter, hp', List.lookup]
+        have : (k == a) = false := by simpa using ha
+        simp [this, ih]
+
+theorem lookup_filter_none (l : List (Nat × Bytes)) (p : Nat × Bytes → Bool) (k : Nat)
+    (h : l.lookup k = none) : (l.filter p).lookup k = none := by
+  induction l with
+  | nil => rfl
+  | cons x xs ih =>
+    obtain ⟨a, v⟩ := x
+    simp only [List.lookup] at h
+    by_cases ha : (k == a) = true
+    · simp [ha] at h
+    · have ha' : (k == a) = false := by simpa using ha
+      simp only [ha'] at h
+      by_cases hp : p (a, v) = true
+      · simp [List.filter, hp, List.lookup, ha', ih h]
+      · have hp' : p (a, v) = false := by simpa using hp
+        simp [List.filter, hp', ih h]
+
+theorem lookup_cons_ne (k a : Nat) (v : Bytes) (l : List (Nat × Bytes)) (h : (k == a) = false) :
+    List.lookup k ((a, v) :: l) = List.lookup k l := by simp [List.lookup, h]
+
+theorem lookup_cons_self (k : Nat) (v : Bytes) (l : List (Nat × Bytes)) :
+    List.lookup k ((k, v) :: l) = some v := by simp [List.lookup]
+
+/-- the invariant of a Save in flight, stage by stage -/
+structure Stage (fs0 fs : SnapFS) (id : Nat) (data : Bytes) (k : Nat) : Prop where
+  sound : fs.sound
+  man : (k ≤ 2 → fs.manifest = fs0.manifest) ∧ (k = 3 → fs.manifest = some id)
+  tmpOk : k = 1 → fs.tmp.lookup id = some data ∧ fs.dirs.lookup id = none
+  pre : k = 0 → fs.tmp.lookup id = none ∧ fs.dirs.lookup id = none
+  dirOk : 2 ≤ k → fs.dirs.lookup id = some data
+
+theorem gc_stage (fs0 fs : SnapFS) (id : Nat) (data : Bytes) (k : Nat) (h : Stage fs0 fs id data k) :
+    Stage fs0 (pstep fs (.gc (some id))) id data k := by
+  have hkeepD : ∀ v, (fun (p : Nat × Bytes) => some p.1 == fs.manifest || some p.1 == some id) (id, v) = true := by
+    intro v; simp
+  have hkeepT : ∀ v, (fun (p : Nat × Bytes) => some p.1 == some id) (id, v) = true := by intro v; simp
+  refine ⟨?_, h.man, ?_, ?_, ?_⟩
+  · have hs := h.sound
+    simp only [SnapFS.sound, pstep] at hs ⊢
+    cases hm : fs.manifest with
+    | none => simp [hm]
+    | some m =>
+      rw [hm] at hs
+      simp only
+      rw [lookup_filter_keep _ _ m (by intro v; simp [hm])]
+      exact hs
+  · intro hk
+    obtain ⟨h1, h2⟩ := h.tmpOk hk
+    simp only [pstep]
+    exact ⟨by rw [lookup_filter_keep _ _ id hkeepT]; exact h1, lookup_filter_none _ _ _ h2⟩
+  · intro hk
+    obtain ⟨h1, h2⟩ := h.pre hk
+    simp only [pstep]
+    exact ⟨lookup_filter_none _ _ _ h1, lookup_filter_none _ _ _ h2⟩
+  · intro hk
+    simp only [pstep]
+    rw [lookup_filter_keep _ _ id hkeepD]; exact h.dirOk hk
+
+theorem plan_stage (fs0 fs : SnapFS) (id : Nat) (data : Bytes) (k : Nat) (hk : k < 3)
+    (h : Stage fs0 fs id data k) :
+    Stage fs0 (pstep fs ((savePlan id data).getD k (.gc none))) id data (k + 1) := by
+  match k, hk with
+  | 0, _ =>
+    obtain ⟨h1, h2⟩ := h.pre rfl
+    refine ⟨?_, ⟨fun _ => h.man.1 (by omega), fun hh => by omega⟩, ?_, fun hh => by omega, fun hh => by omega⟩
+    · have := h.sound; simpa [savePlan, pstep, SnapFS.sound] using this
+    · intro _; simp [savePlan, pstep, List.lookup, h2]
+  | 1, _ =>
+    obtain ⟨h1, h2⟩ := h.tmpOk rfl
+    refine ⟨?_, ⟨fun _ => ?_, fun hh => by omega⟩, fun hh => by omega, fun hh => by omega, fun _ => ?_⟩
+    · have hs := h.sound
+      simp only [savePlan, List.getD, List.getElem?_cons_succ, List.getElem?_cons_zero, Option.getD_some, pstep, h1, h2,
+        SnapFS.sound] at hs ⊢
+      cases hm : fs.manifest with
+      | none => simp
+      | some m =>
+        rw [hm] at hs
+        simp only
+        by_cases hmi : (m == id) = true
+        · have : m = id := by simpa using hmi
+          subst this; rw [lookup_cons_self]; rfl
+        · have : (m == id) = false := by simpa using hmi
+          rw [lookup_cons_ne m id data fs.dirs this]; exact hs
+    · simp only [savePlan, List.getD, List.getElem?_cons_succ, List.getElem?_cons_zero, Option.getD_some, pstep, h1, h2]
+      exact h.man.1 (by omega)
+    · simp [savePlan, pstep, h1, h2, List.lookup]
+  | 2, _ =>
+    have hd := h.dirOk (by omega)
+    refine ⟨?_, ⟨fun hh => by omega, fun _ => ?_⟩, fun hh => by omega, fun hh => by omega, fun _ => ?_⟩
+    · simp [savePlan, pstep, SnapFS.sound, hd]
+    · simp [savePlan, pstep]
+    · simpa [savePlan, pstep] using hd
+
+theorem runPlan_stage (fs0 fs : SnapFS) (id : Nat) (data : Bytes) (k n : Nat) (gcs : List Bool)
+    (hkn : k + n ≤ 3) (h : Stage fs0 fs id data k) :
+    Stage fs0 (runPlan fs id (((savePlan id data).drop k).take n) gcs) id data (k + n) := by
+  induction n generalizing k fs gcs with
+  | zero => simpa [runPlan] using h
+  | succ n ih =>
+    have hk : k < 3 := by omega
+    have hdrop : ((savePlan id data).drop k).take (n + 1) =
+        (savePlan id data).getD k (.gc none) :: (((savePlan id data).drop (k + 1)).take n) := by
+      match k, hk with
+      | 0, _ => rfl
+      | 1, _ => rfl
+      | 2, _ => rfl
+    rw [hdrop]
+    have hk1 : k + (n + 1) = (k + 1) + n := by omega
+    rw [hk1]
+    cases gcs with
+    | nil =>
+      simp only [runPlan]
+      exact ih (pstep fs _) (k + 1) [] (by omega) (plan_stage fs0 fs id data k hk h)
+    | cons g gs =>
+      simp only [runPlan]
+      cases g with
+      | true =>
+        simp only [if_true]
+        exact ih _ (k + 1) gs (by omega) (plan_stage fs0 _ id data k hk (gc_stage fs0 fs id data k h))
+      | false =>
+        simp only [Bool.false_eq_true, if_false]
+        exact ih _ (k + 1) gs (by omega) (plan_stage fs0 fs id data k hk h)
+
+/-- **snapshot_publish_commit_atomic**: kill the process after any number `n ≤ 3` of the
+    three effects of a snapshot-carrying Save (write staging dir, publish by no-overwrite
+    rename, commit the manifest), with GC passes of the running process anywhere in
+    between, and let the restarted process run a GC pass with nothing protected: the
+    durable manifest is the OLD one or the NEW one, and in either case the directory it
+    names exists (never a dangling manifest); if it is the new one, the directory holds the
+    new payload. -/
+theorem c14_snapshot_publish_commit_atomic (fs : SnapFS) (hs : fs.sound) (id : Nat) (data : Bytes)
+    (hfreshT : fs.tmp.lookup id = none) (hfreshD : fs.dirs.lookup id = none)
+    (n : Nat) (hn : n ≤ 3) (gcs : List Bool) (restartGC : Bool) :
+    (afterCrash (runPlan fs id ((savePlan id data).take n) gcs) restartGC).sound ∧
+    ((afterCrash (runPlan fs id ((savePlan id data).take n) gcs) restartGC).manifest = fs.manifest ∨
+     (afterCrash (runPlan fs id ((savePlan id data).take n) gcs) restartGC).manifest = some id) ∧
+    ((afterCrash (runPlan fs id ((savePlan id data).take n) gcs) restartGC).manifest = some id →
+     (afterCrash (runPlan fs id ((savePlan id data).take n) gcs) restartGC).manifest ≠ fs.manifest →
+     (afterCrash (runPlan fs id ((savePlan id data).take n) gcs) restartGC).dirs.lookup id = some data) := by
+  have h0 : Stage fs fs id data 0 :=
+    ⟨hs, ⟨fun _ => rfl, fun h => by omega⟩, fun h => by omega, fun _ => ⟨hfreshT, hfreshD⟩, fun h => by omega⟩
+  have hst := runPlan_stage fs fs id data 0 n gcs (by omega) h0
+  simp only [List.drop_zero, Nat.zero_add] at hst
+  generalize runPlan fs id ((savePlan id data).take n) gcs = fs1 at hst ⊢
+  have hman : fs1.manifest = fs.manifest ∨ fs1.manifest = some id := by
+    by_cases h3 : n = 3
+    · right; exact hst.man.2 h3
+    · left; exact hst.man.1 (by omega)
+  have hdir : fs1.manifest = some id → fs1.manifest ≠ fs.manifest → fs1.dirs.lookup id = some data := by
+    intro h1 h2
+    by_cases h3 : n = 3
+    · exact hst.dirOk (by omega)
+    · exact absurd (hst.man.1 (by omega)) h2
+  cases restartGC with
+  | false => exact ⟨hst.sound, hman, hdir⟩
+  | true =>
+    have hm2 : (afterCrash fs1 true).manifest = fs1.manifest := rfl
+    have hd2 : (afterCrash fs1 true).dirs =
+        fs1.dirs.filter (fun p => some p.1 == fs1.manifest || some p.1 == none) := rfl
+    refine ⟨?_, by rw [hm2]; exact hman, ?_⟩
+    · have hs1 := hst.sound
+      unfold SnapFS.sound at hs1 ⊢
+      rw [hm2, hd2]
+      cases hm : fs1.manifest with
+      | none => trivial
+      | some m =>
+        rw [hm] at hs1
+        simp only
+        rw [lookup_filter_keep _ _ m (by intro v; simp)]
+        exact hs1
+    · intro h1 h2
+      rw [hm2] at h1 h2
+      rw [hd2, lookup_filter_keep _ _ id (by intro v; simp [h1])]
+      exact hdir h1 h2
+
+example : (runPlan { dirs := [(1, [9])], manifest := some 1 } 2 ((savePlan 2 [7]).take 2) [true, true]).manifest = some 1 := by decide
+example : ({ dirs := [(1, [9])], manifest := some 1 } : SnapFS).sound := by simp [SnapFS.sound, List.lookup]
+
+
+def before14 (a b : String) (l : List String) : Bool :=
+  match l.findIdx? (· == a), l.findIdx? (· == b) with
+  | some i, some j => i < j
+  | _, _ => false
+
+/-- **publish_before_commit** (T): in the source as it is now, a snapshot-carrying Save
+    writes and syncs the staging directory, publishes it by a no-overwrite rename and a
+    directory fsync, and only then submits the Pebble batch that names it; GC is started
+    after that — the order `savePlan` models. -/
+theorem c14_publish_before_commit :
+    before14 "prepareAndWriteSnapshot" "publishSnapshotAndCommit" Gen.C14.save = true ∧
+    before14 "publishSnapshotAndCommit" "startSnapshotGC" Gen.C14.save = true ∧
+    before14 "publishFinal" "submitWrite" Gen.C14.publishSnapshotAndCommit = true ∧
+    Gen.C14.prepareAndWriteSnapshot = ["prepare", "write"] ∧
+    Gen.C14.snapshotWrite = ["MkdirAll", "Mkdir", "snapshotFsyncDir", "snapshotWriteFile", "snapshotFsyncDir"] ∧
+    Gen.C14.publishFinal = ["renameNoOverwrite", "snapshotFsyncDir"] := by
+  refine ⟨by decide, by decide, by decide, rfl, rfl, rfl⟩
 
 end WK.C14
